@@ -51,8 +51,8 @@ def std_hyperplane_rows(dim):
 
 
 def gen_letter(rng, dim, kinds=None):
-    # Hyperplane objects exist only for dim >= 2 (in H^1 a hyperplane is a point and has no ideal basis; see h1_reflection_oracle)
-    kinds = kinds or (["elliptic", "loxodromic"] + (["rotation", "reflection", "reflectionD"] if dim >= 2 else [])
+    # in H^1 a hyperplane is a point: Hyperplane(normal) works (repaired), explicit ideal-basis data does not exist
+    kinds = kinds or (["elliptic", "loxodromic", "reflection"] + (["rotation", "reflectionD"] if dim >= 2 else [])
                       + (["sl2", "sl2"] if dim == 2 else []))
     k = rng.choice(kinds)
     if k == "rotation":
@@ -143,6 +143,11 @@ def gen_ctor(rng, n):
         dim = rng.choice([1, 2, 2, 2, 3, 3, 4, 5])
         l = gen_letter(rng, dim)
         inp = {"dim": dim, "letter": l, "shape": []}
+        if l["kind"] == "reflection" and dim >= 2 and rng.random() < 0.4:
+            # an array of normals gives an array of hyperplanes (never exactly dim+1 of them: that shape is read as one hyperplane's data)
+            shape = rng.choice([s for s in ([2], [3], [1], [2, 2], [4]) if s[-1] != dim + 1])
+            inp["shape"] = shape
+            inp["batch"] = [L.encV(L.spacelike_vec(rng, dim)) for _ in range(int(np.prod(shape)))]
         if l["kind"] == "sl2" and rng.random() < 0.5:
             shape = rng.choice([[2], [3], [1], [2, 2]])
             cnt = int(np.prod(shape))
@@ -153,6 +158,10 @@ def gen_ctor(rng, n):
 
 def run_ctor(inp):
     dim, l = inp["dim"], inp["letter"]
+    if inp["shape"] and l["kind"] == "reflection":
+        d = np.array([Q.decf(a) for a in inp["batch"]]).reshape(tuple(inp["shape"]) + (dim + 1,))
+        iso = H.Hyperplane(d).reflection_across()
+        return {"mats": L.units(iso.matrix, 2).tolist(), "shape": list(iso.matrix.shape)}
     if inp["shape"]:
         A = np.array([Q.decf(a) for a in inp["batch"]]).reshape(tuple(inp["shape"]) + (2, 2))
         iso = H.sl2_iso(A)
@@ -162,6 +171,8 @@ def run_ctor(inp):
 
 
 def lean_ctor(inp, obs):
+    if inp["shape"] and inp["letter"]["kind"] == "reflection":
+        return [{"op": "c02.refl_closed", "d": a} for a in inp["batch"]]
     if inp["shape"]:
         return [{"op": "c02.sl2", "A": a} for a in inp["batch"]]
     return [letter_op(inp["letter"], inp["dim"])]
@@ -277,7 +288,7 @@ def judge_word(inp, obs, lr):
 # ------------------------------------------------------------------------------------------------
 # S2c: SVD-based constructors and hyperbolic_rep: exact contract residual on the float output
 # ------------------------------------------------------------------------------------------------
-COX = [("tri", (2, 3, 7)), ("tri", (2, 4, 5)), ("tri", (3, 3, 4)), ("tri", (2, 3, 0)), ("tri", (3, 4, 0)), ("tri", (0, 0, 0)),
+COX = [("tri", (3, 3, -1)), ("tri", (2, -1, -1)), ("tri", (-1, 4, -1)), ("lin", (3, -1, 3)), ("tri", (2, 3, 7)), ("tri", (2, 4, 5)), ("tri", (3, 3, 4)), ("tri", (2, 3, 0)), ("tri", (3, 4, 0)), ("tri", (0, 0, 0)),
        ("tri", (4, 4, 4)), ("tri", (2, 5, 5)), ("lin", (4, 3, 5)), ("lin", (3, 5, 3)), ("lin", (5, 3, 5)), ("lin", (3, 3, 6)),
        ("lin", (3, 4, 4)), ("lin", (5, 3, 3, 3)), ("lin", (5, 3, 3, 4))]
 
@@ -292,6 +303,60 @@ def cox_group(spec):
         for j in range(i + 2, len(names)):
             diagram.append((names[i], names[j], 2))
     return coxeter.CoxeterGroup(diagram=diagram), names
+
+
+def gen_history(rng, spec, maxlen=4):
+    """a random history of other representation calls made on the same CoxeterGroup object before hyperbolic_rep()"""
+    kind, p = spec
+    rank = 3 if kind == "tri" else len(p) + 1
+    if kind == "tri":
+        inf_edges = [e for e, m in zip([(0, 1), (1, 2), (2, 0)], p) if m < 0]
+    else:
+        inf_edges = [(i, i + 1) for i, m in enumerate(p) if m < 0]
+    hist = []
+    for _ in range(rng.randint(0, maxlen)):
+        op = rng.choice(["hyperbolic_rep", "geometric", "geometric_diag", "canonical", "bilinear_form"] +
+                        (["cartan_matrix", "tits_vinberg", "tits_vinberg"] if inf_edges else []))
+        h = {"op": op}
+        if op in ("cartan_matrix", "tits_vinberg"):
+            params = []
+            for (i, j) in inf_edges:
+                if rng.random() < 0.8:
+                    a = -rng.choice([2.0, 2.5, 3.0, 4.0, 6.0])
+                    if rng.random() < 0.5:
+                        params.append([i, j, a])                      # symmetric completion by the library
+                    else:
+                        b = -rng.choice([1.0, 1.5, 2.0, 5.0])
+                        params.append([i, j, a])
+                        params.append([j, i, b])                      # non-symmetric (Vinberg deformation)
+            h["params"] = params
+            h["as_matrix"] = rng.random() < 0.3
+            h["rank"] = rank
+        hist.append(h)
+    return hist
+
+
+def apply_history(G, hist):
+    for h in hist:
+        op = h["op"]
+        if op == "hyperbolic_rep":
+            G.hyperbolic_rep()
+        elif op == "geometric":
+            G.geometric_representation()
+        elif op == "geometric_diag":
+            G.geometric_representation(diagonalize=True)
+        elif op == "canonical":
+            G.canonical_representation()
+        elif op == "bilinear_form":
+            G.bilinear_form()
+        else:
+            if h["as_matrix"]:
+                P = np.zeros((h["rank"], h["rank"]))
+                for i, j, v in h["params"]:
+                    P[i, j] = v
+            else:
+                P = {(i, j): v for i, j, v in h["params"]}
+            (G.cartan_matrix if op == "cartan_matrix" else G.tits_vinberg_rep)(P)
 
 
 def gen_contract(rng, n):
@@ -334,6 +399,7 @@ def gen_contract(rng, n):
             inp["shape"] = []
             inp["cox"] = [spec[0], list(spec[1])]
             inp["words"] = ["".join(rng.choice(names + names.upper()) for _ in range(rng.randint(0, 6))) for _ in range(4)]
+            inp["history"] = gen_history(rng, spec)
         yield inp
 
 
@@ -367,9 +433,12 @@ def run_contract(inp):
         iso = H.Isometry(utils.find_isometry(H.minkowski(dim + 1), fr, fo), column_vectors=False)
     elif kind == "hyperbolic_rep":
         G, names = cox_group((inp["cox"][0], tuple(inp["cox"][1])))
+        apply_history(G, inp.get("history", []))
         rep = G.hyperbolic_rep()
         iso = rep.isometries(inp["words"] + list(names))
         out["cls"] = type(iso).__name__
+        fresh, _ = cox_group((inp["cox"][0], tuple(inp["cox"][1])))
+        out["fresh"] = np.asarray(fresh.hyperbolic_rep().isometries(inp["words"] + list(names)).matrix, dtype=float).tolist()
     M = np.asarray(iso.matrix, dtype=float)
     out.update(shape=list(M.shape), mats=L.units(M, 2).tolist())
     if fo and kind != "hyperbolic_rep":
@@ -425,6 +494,10 @@ def judge_contract(inp, obs, lr):
         if not (finite(np.array(m)) and r <= 1e-9 * sc):
             return {"expected": "‖M J Mᵀ − J‖∞ ≤ 1e-9·max(1,|M|²) (evaluated exactly in Lean on the float output)",
                     "observed": {"residual": r, "M": m}, "tags": dict(tags, residual=True), "property_failure": True}
+    if "fresh" in obs and not close(np.array(obs["mats"]), np.array(obs["fresh"]), 1e-9):
+        return {"expected": "hyperbolic_rep() of a group object does not depend on the representations requested from it before",
+                "observed": {"history": inp.get("history"), "with_history": obs["mats"][0], "fresh": obs["fresh"][0]},
+                "tags": dict(tags, history_dependent=True), "property_failure": True}
     if "dets" in obs and not all(d > 0 for d in obs["dets"]):
         return {"expected": "positive determinant with force_oriented=True", "observed": obs["dets"],
                 "tags": dict(tags, orientation=True), "property_failure": True}
@@ -452,9 +525,9 @@ def fball(rng, dim, rmax=0.9):
 
 
 def gen_fletter(rng, dim, tmax):
-    kinds = ["origin_to", "tv_origin_to", "isometry_to", "elliptic", "loxodromic", "timelike_to", "spacelike_to"]
+    kinds = ["origin_to", "tv_origin_to", "isometry_to", "elliptic", "loxodromic", "timelike_to", "spacelike_to", "reflection"]
     if dim >= 2:
-        kinds += ["rotation", "reflection", "reflectionD"]
+        kinds += ["rotation", "reflectionD"]
     if dim == 2:
         kinds += ["sl2", "sl2", "cox"]
     if dim == 3:
@@ -498,6 +571,7 @@ def gen_fletter(rng, dim, tmax):
         names = "abcde"[:dim + 1]
         l["cox"] = [spec[0], list(spec[1])]
         l["w"] = "".join(rng.choice(names + names.upper()) for _ in range(rng.randint(1, 5)))
+        l["history"] = gen_history(rng, spec)
     return l
 
 
@@ -534,6 +608,7 @@ def build_fletter(l, dim):
         return H.sl2_iso(np.array(l["A"]))
     if k == "cox":
         G, _ = cox_group((l["cox"][0], tuple(l["cox"][1])))
+        apply_history(G, l.get("history", []))
         return G.hyperbolic_rep()[l["w"]]
     raise ValueError(k)
 
@@ -627,8 +702,8 @@ def judge_oracle(inp, obs, lr):
 
 
 # ------------------------------------------------------------------------------------------------
-# S3 (finding): hyperplanes of H^1 are points; the Hyperplane class stores a hyperplane through an ideal basis,
-# which does not exist there, and silently builds wrong data
+# S3 (regression, repaired in 9eb3aca): hyperplanes of H^1 are points; Hyperplane(normal) used to build a lightlike row
+# that is not orthogonal to the normal and reflection_across() silently returned a non-isometry
 # ------------------------------------------------------------------------------------------------
 def gen_h1(rng, n):
     for _ in range(n):
@@ -646,10 +721,182 @@ def run_h1(inp):
 
 def judge_h1(inp, obs, lr):
     if "exc" in obs:
-        return None          # refusing is acceptable
+        return {"expected": "a reflection (or at least a GeometryError)", "observed": obs, "tags": {"ctor": "reflection", "dim": 1, "exc": obs["exc"]}} \
+            if obs["exc"] != "GeometryError" else None
     if not obs["res"] <= 1e-9:
         return {"expected": "the reflection of H^1 in the point with normal d preserves the form", "observed": obs,
                 "tags": {"ctor": "reflection", "dim": 1, "h1_hyperplane": True}}
+    return None
+
+
+# ------------------------------------------------------------------------------------------------
+# S3: number packagings of the constructor parameters (integer-valued parameters passed as Python int, NumPy integer
+# scalars, 0-d integer arrays, integer arrays / lists, float32): the value is the same, so must be the isometry
+# ------------------------------------------------------------------------------------------------
+SCALAR_PACKS = ["pyint", "npint64", "npint32", "zerod_int", "pyfloat", "npfloat64", "npfloat32", "zerod_float"]
+ARRAY_PACKS = ["int64", "int32", "list_int", "float64", "float32", "list_float"]
+ND_PACKS = ["int64", "int32", "float64", "float32"]      # timelike_to / spacelike_to / TangentVector take ndarrays
+INT_PACKS = {"pyint", "npint64", "npint32", "zerod_int", "int64", "int32", "list_int"}
+
+
+def pack_scalar(v, pk):
+    return {"pyint": int(v), "npint64": np.int64(v), "npint32": np.int32(v), "zerod_int": np.array(int(v)), "pyfloat": float(v),
+            "npfloat64": np.float64(v), "npfloat32": np.float32(v), "zerod_float": np.array(float(v))}[pk]
+
+
+def pack_array(a, pk):
+    a = np.array(a)
+    if pk == "list_int":
+        return a.astype(int).tolist()
+    if pk == "list_float":
+        return a.astype(float).tolist()
+    return a.astype(pk)
+
+
+def int_spacelike(rng, dim):
+    while True:
+        d = [rng.randint(-3, 3) for _ in range(dim + 1)]
+        if -d[0] ** 2 + sum(x * x for x in d[1:]) > 0:
+            return d
+
+
+def int_timelike(rng, dim):
+    while True:
+        d = [rng.randint(-4, 4) for _ in range(dim + 1)]
+        if -d[0] ** 2 + sum(x * x for x in d[1:]) < 0:
+            return d
+
+
+def gen_pack(rng, n):
+    for _ in range(n):
+        dim = rng.choice([1, 2, 2, 3, 4])
+        kind = rng.choice(["loxodromic", "loxodromic", "rotation", "elliptic", "sl2", "reflection", "origin_to", "timelike_to",
+                           "spacelike_to", "tangent"])
+        if kind == "rotation" and dim < 2:
+            dim = 2
+        if kind == "sl2":
+            dim = 2
+        if kind == "reflection" and dim < 1:
+            dim = 2
+        inp = {"kind": kind, "dim": dim}
+        if kind == "loxodromic":
+            inp.update(v=rng.choice([2, 3, -2, 5, 1]), pack=rng.choice(SCALAR_PACKS))
+        elif kind == "rotation":
+            inp.update(v=rng.choice([1, 2, -3, 0, 4]), pack=rng.choice(SCALAR_PACKS))
+        elif kind == "elliptic":
+            perm = list(range(dim))
+            rng.shuffle(perm)
+            O = [[(rng.choice([-1, 1]) if perm[i] == j else 0) for j in range(dim)] for i in range(dim)]
+            inp.update(v=O, pack=rng.choice(ARRAY_PACKS), cv=rng.random() < 0.5)
+        elif kind == "sl2":
+            A = [[1, 0], [0, 1]]
+            for _ in range(3):      # SL(2,Z): product of integer elementary matrices
+                t = rng.randint(-2, 2)
+                E = [[1, t], [0, 1]] if rng.random() < 0.5 else [[1, 0], [t, 1]]
+                A = [[sum(A[i][k] * E[k][j] for k in range(2)) for j in range(2)] for i in range(2)]
+            if rng.random() < 0.4:
+                A = [A[0], [-A[1][0], -A[1][1]]]
+            shape = rng.choice([[], [], [2]])
+            inp.update(v=A if not shape else [A, [[1, 1], [0, 1]]], pack=rng.choice(ARRAY_PACKS), shape=shape)
+        elif kind in ("reflection", "spacelike_to"):
+            inp.update(v=int_spacelike(rng, dim), pack=rng.choice(ARRAY_PACKS if kind == "reflection" else ND_PACKS))
+        elif kind in ("origin_to", "timelike_to"):
+            inp.update(v=int_timelike(rng, dim), pack=rng.choice(ARRAY_PACKS if kind == "origin_to" else ND_PACKS))
+        elif kind == "tangent":
+            v = int_timelike(rng, dim)
+            while True:      # a tangent direction: not a multiple of the base point
+                w = [rng.randint(-3, 3) for _ in range(dim + 1)]
+                if np.linalg.matrix_rank(np.array([v, w], dtype=float)) == 2:
+                    break
+            inp.update(v=v, w=w, pack=rng.choice(ND_PACKS))
+        yield inp
+
+
+def build_pack(inp, pk):
+    kind, dim = inp["kind"], inp["dim"]
+    if kind == "loxodromic":
+        return H.Isometry.standard_loxodromic(dim, pack_scalar(inp["v"], pk))
+    if kind == "rotation":
+        return H.Isometry.standard_rotation(pack_scalar(inp["v"], pk), dimension=dim)
+    if kind == "elliptic":
+        return H.Isometry.elliptic(dim, pack_array(inp["v"], pk), column_vectors=inp["cv"])
+    if kind == "sl2":
+        return H.sl2_iso(pack_array(inp["v"], pk))
+    if kind == "reflection":
+        return H.Hyperplane(pack_array(inp["v"], pk)).reflection_across()
+    if kind == "spacelike_to":
+        return H.spacelike_to(pack_array(inp["v"], pk))
+    if kind == "origin_to":
+        return H.Point(pack_array(inp["v"], pk)).origin_to()
+    if kind == "timelike_to":
+        return H.timelike_to(pack_array(inp["v"], pk))
+    if kind == "tangent":
+        return H.TangentVector(H.Point(pack_array(inp["v"], pk)), pack_array(inp["w"], pk)).origin_to()
+    raise ValueError(kind)
+
+
+def run_pack(inp):
+    scalar = inp["kind"] in ("loxodromic", "rotation")
+    ref = np.asarray(build_pack(inp, "pyfloat" if scalar else "float64").matrix, dtype=float)
+    try:
+        M = np.asarray(build_pack(inp, inp["pack"]).matrix, dtype=float)
+    except Exception as e:
+        return {"exc": type(e).__name__, "msg": str(e)[:160], "ref_res": fres(ref)}
+    return {"res": fres(M), "ref_res": fres(ref), "same": bool(M.shape == ref.shape and np.max(np.abs(M - ref)) <= 1e-5 * (1 + np.max(np.abs(ref)))),
+            "M": M.tolist()}
+
+
+def judge_pack(inp, obs, lr):
+    pk = inp["pack"]
+    tags = {"ctor": inp["kind"], "packaging": pk, "int_packaging": pk in INT_PACKS}
+    tol = 1e-5 if "32" in pk and "float" in pk else 1e-9
+    if not obs.get("ref_res", 1.0) <= 1e-9:
+        return {"expected": "float64 reference is an isometry", "observed": obs, "tags": dict(tags, reference=True)}
+    if "exc" in obs:
+        if obs["exc"] == "UFuncTypeError" and pk in INT_PACKS and inp["kind"] in ("reflection", "spacelike_to", "origin_to", "timelike_to", "tangent"):
+            tags["known"] = "D18"      # integer vectors normalised in place
+        return {"expected": "the same isometry as for the float64 packaging of the same values", "observed": obs, "tags": dict(tags, exc=obs["exc"])}
+    if not (obs["res"] <= tol and obs["same"]):
+        if inp["kind"] == "rotation" and pk in ("npint64", "npint32", "zerod_int"):
+            tags["known"] = "D17"      # identity allocated with the integer dtype of the angle
+        return {"expected": "an isometry, equal to the one built from the float64 packaging of the same values",
+                "observed": {"residual": obs["res"], "equal_to_reference": obs["same"], "M": obs["M"]}, "tags": tags}
+    return None
+
+
+# ---- S3: arrays of hyperplanes ---------------------------------------------------------------------------------
+def gen_crefl(rng, n):
+    for _ in range(n):
+        dim = rng.choice([2, 2, 3, 4])
+        shape = rng.choice([s for s in ([2], [3], [4], [1], [2, 2], [2, 3]) if s[-1] != dim + 1])   # (…, n+1, n+1) is read as hyperplane data
+        ds = []
+        for _ in range(int(np.prod(shape))):
+            while True:
+                d = [rng.gauss(0, 1) for _ in range(dim + 1)]
+                if -d[0] ** 2 + sum(x * x for x in d[1:]) > 0.2:
+                    break
+            ds.append(d)
+        yield {"dim": dim, "shape": shape, "normals": ds}
+
+
+def run_crefl(inp):
+    d = np.array(inp["normals"]).reshape(tuple(inp["shape"]) + (inp["dim"] + 1,))
+    R = np.asarray(H.Hyperplane(d.copy()).reflection_across().matrix, dtype=float)
+    J = Jf(inp["dim"] + 1)
+    dev = 0.0
+    for x, M in zip(np.array(inp["normals"]), L.units(R, 2)):
+        ex = np.eye(inp["dim"] + 1) - 2 * np.outer(J @ x, x) / (x @ J @ x)
+        dev = max(dev, float(np.max(np.abs(M - ex))))
+    return {"shape": list(R.shape), "res": fres(R), "dev": dev}
+
+
+def judge_crefl(inp, obs, lr):
+    tags = {"ctor": "reflection", "dim": inp["dim"], "composite": True}
+    if "exc" in obs:
+        return {"expected": "an array of reflections", "observed": obs, "tags": dict(tags, exc=obs["exc"])}
+    n1 = inp["dim"] + 1
+    if obs["shape"] != inp["shape"] + [n1, n1] or not (obs["res"] <= 1e-9 and obs["dev"] <= 1e-8):
+        return {"expected": "each unit is the reflection in its own normal (isometry, = 1 − 2 J nᵀn/<n,n>)", "observed": obs, "tags": tags}
     return None
 
 
@@ -674,7 +921,13 @@ CLAUSES = [
     Clause("iso_oracle_far", "oracle", gen_oracle(3, 4.0), run_oracle, judge_oracle,
            site="every Isometry constructor; Transformation.apply/inv", budget={"quick": 300, "thorough": 12000},
            what="same with translation lengths up to 4"),
+    Clause("composite_reflection_oracle", "oracle", gen_crefl, run_crefl, judge_crefl, site="hyperbolic.Hyperplane / Subspace.reflection_across (composite)",
+           budget={"quick": 80, "thorough": 2000},
+           what="arrays of spacelike normals: every unit of the composite reflection is the reflection in its own normal"),
+    Clause("packaging_oracle", "oracle", gen_pack, run_pack, judge_pack, site="every Isometry constructor (parameter packagings)",
+           budget={"quick": 300, "thorough": 6000},
+           what="integer-valued parameters passed as Python int / NumPy integer scalars / 0-d arrays / integer arrays and lists / float32: the result is an isometry and equals the float64 result"),
     Clause("h1_reflection_oracle", "oracle", gen_h1, run_h1, judge_h1, site="hyperbolic.Hyperplane (dimension 1)",
-           budget={"quick": 5, "thorough": 20},
-           what="Hyperplane(normal).reflection_across() in H^1 (known finding: the class cannot represent a hyperplane of H^1)"),
+           budget={"quick": 20, "thorough": 200},
+           what="Hyperplane(normal).reflection_across() in H^1 preserves the form (regression for the repaired ideal basis)"),
 ]
